@@ -35,6 +35,12 @@ var standInOf = map[string]string{
 	"datacoding.(UCS2).":              "XTEXT", "datacoding.(Latin1).": "XTEXT", "datacoding.(GB18030).": "XTEXT", "datacoding.(GSM7Unpacked).": "XTEXT",
 }
 
+// standInPartial: functions that ARE under contract, but only for safety, bounds and termination; what they compute is
+// covered by a bounded stand-in.
+var standInPartial = map[string]string{
+	"gsm7encoding.(*gsm7Encoder).Transform": "AGREE", "gsm7encoding.(*gsm7Decoder).Transform": "AGREE",
+}
+
 var validatorFailRe = regexp.MustCompile(`VALIDATOR-FAIL (.*)`)
 
 // runStandIns runs the named validators in quick or full mode; returns the evidence rows and the failure lines.
